@@ -14,4 +14,15 @@ theorem hashiter_next_eq (hash : List Nat → Nat) (m k x i : Nat) (hm : m ≠ 0
       some (some (hashiter_next i (hash [0, x] % m) (hash [1, x] % m) m (hash [i + 2] % m))) := by
   simp [HashIter.positions, hm, hashiter_next, hi]
 
+/-- `HashIterBuilder::iter_for`: the two residues every probe position is computed from (`h_i(obj, i)` is the hasher fed
+`i` and then the object: `hash [i, x]`); `% 0` (a builder with `m = 0`) is the panic the model records as `none` -/
+theorem hashiter_iter_for_eq (hash : List Nat → Nat) (m x : Nat) :
+    hashiter_iter_for m (fun x i => hash [i, x]) x = Flow.ret (hash [0, x] % m, hash [1, x] % m) := rfl
+
+/-- hence the model's positions are `next` applied to exactly the pair the translated `iter_for` returns -/
+theorem hashiter_positions_eq (hash : List Nat → Nat) (m k x i : Nat) (hm : m ≠ 0) (hi : i < k) :
+    ∃ h1 h2, hashiter_iter_for m (fun x i => hash [i, x]) x = Flow.ret (h1, h2) ∧
+      (HashIter.positions hash m k x).map (fun l => l[i]?) = some (some (hashiter_next i h1 h2 m (hash [i + 2] % m))) :=
+  ⟨_, _, rfl, hashiter_next_eq hash m k x i hm hi⟩
+
 end Pds.KernelTie
